@@ -1496,7 +1496,15 @@ class Gen:
             if self.chance('p_ns_doc'):
                 ns.docs = [self.doc(force=True)]
                 if p.get('p_multi_ns_doc') and r.random() < p['p_multi_ns_doc']:
-                    ns.docs += [self.doc(force=True) for _ in range(r.choice([1, 1, 2]))]
+                    for _ in range(r.choice([1, 1, 2])):
+                        x = r.random()
+                        if x < 0.25:
+                            # the same text again, or only its last line: files that repeat a header doc
+                            ns.docs.append(Doc([list(pp) for pp in ns.docs[0].paras]))
+                        elif x < 0.4:
+                            ns.docs.append(Doc([[ns.docs[0].paras[-1][-1]]]))
+                        else:
+                            ns.docs.append(self.doc(force=True))
                     m.feature('namespace_doc_in_several_files')
         if self.chance('p_cfg') or p['cfg_style']:
             self.gen_cfg()
